@@ -6,13 +6,17 @@
 bin/seedtest.py is run there, and both are removed afterwards.  The result is testing of the machinery, not evidence:
 it is written to seeded/MATRIX.md and gen/matrix.json of the real /verif.
 
-usage: bin/matrix.py [--scratch /tmp/vx_matrix] [--props C01,C02,...] [seeded-dir ...]
+usage: bin/matrix.py [--tag T] [--scratch /tmp/vx_matrix_T] [--props C01,C02,...] [seeded-dir ...]
+Several instances with different tags can run side by side; bin/matrixmd.py merges gen/matrix_*.json into seeded/MATRIX.md.
 """
 import json, os, shutil, subprocess, sys, time
 
 V = os.path.dirname(os.path.dirname(os.path.abspath(__file__)))
 args = sys.argv[1:]
-scratch = "/tmp/vx_matrix"
+tag = "main"
+if "--tag" in args:
+    i = args.index("--tag"); tag = args[i + 1]; del args[i:i + 2]
+scratch = "/tmp/vx_matrix_" + tag
 props = None
 if "--scratch" in args:
     i = args.index("--scratch"); scratch = args[i + 1]; del args[i:i + 2]
@@ -42,40 +46,14 @@ try:
     # the copied Cargo.lock of the worktree must not count as a change
     subprocess.run(["git", "-C", mrepo, "status", "--porcelain"], capture_output=True)
     t0 = time.time()
-    log = open(os.path.join(V, "gen", "matrix.log"), "w")
+    log = open(os.path.join(V, "gen", "matrix_%s.log" % tag), "w")
     subprocess.run(["python3", os.path.join(mverif, "bin", "seedtest.py")] + dirs + ["--props", props], env=env, stdout=log, stderr=subprocess.STDOUT, cwd=mverif)
     res = json.load(open(os.path.join(mverif, "gen", "seedtest.json")))
     json.dump({"wall_s": round(time.time() - t0), "verif_commit": subprocess.run(["git", "-C", V, "rev-parse", "--short", "HEAD"], capture_output=True, text=True).stdout.strip(), "results": res},
-              open(os.path.join(V, "gen", "matrix.json"), "w"), indent=1)
+              open(os.path.join(V, "gen", "matrix_%s.json" % tag), "w"), indent=1)
 finally:
     subprocess.run(["git", "-C", "/repo", "worktree", "remove", "--force", mrepo], capture_output=True)
     shutil.rmtree(scratch, ignore_errors=True)
     subprocess.run(["git", "-C", "/repo", "worktree", "prune"])
 
-# ---- MATRIX.md
-plist = props.split(",")
-sym = {0: "ok", 1: "**V**", 2: "u"}
-L = ["# Cross matrix: kept seeded changes x properties", "",
-     "Generated by `bin/matrix.py` (machinery at commit `%s`, %d min wall) in an isolated snapshot: scratch worktree of /repo, never /repo itself." % (json.load(open(os.path.join(V, "gen", "matrix.json")))["verif_commit"], (time.time() - t0) // 60),
-     "`**V**` = VIOLATION (exit 1), `ok` = exit 0, `u` = UNDECIDED (exit 2: the check refuses to decide, no alarm). The column of the change's own target property is marked `*`.", "",
-     "| change | " + " | ".join(plist) + " |", "|---|" + "---|" * len(plist)]
-for r in res:
-    name = os.path.basename(r["dir"].rstrip("/"))
-    cells = []
-    for p in plist:
-        rc = r["results"].get(p, {}).get("rc")
-        c = sym.get(rc, "?")
-        if p == r["target"]:
-            c += "*"
-        cells.append(c)
-    L.append("| %s | " % name + " | ".join(cells) + " |")
-L += ["", "Every `**V**` outside the target column is explained in DESIGN.md 12.4 (the change really breaks that property too, by the property's own text) — a VIOLATION on a change that leaves the property intact would be a false alarm and is treated as a bug of the check.", ""]
-L.append("## Last lines of each non-ok cell")
-for r in res:
-    name = os.path.basename(r["dir"].rstrip("/"))
-    for p in plist:
-        c = r["results"].get(p)
-        if c and c["rc"] != 0:
-            L.append("* `%s` / %s (rc=%d): " % (name, p, c["rc"]) + " / ".join(l.strip()[:260] for l in c["lines"][-4:]))
-open(os.path.join(V, "seeded", "MATRIX.md"), "w").write("\n".join(L) + "\n")
-print("written seeded/MATRIX.md")
+subprocess.run(["python3", os.path.join(V, "bin", "matrixmd.py")])
